@@ -49,7 +49,8 @@ def check(pid, tier, regen=False):
     # solver traces are validated against SolverAbs; only the clauses that say "this value is not a value the expression
     # takes" belong to C26
     from . import eng_solver as ES
-    hj = ES.jobs_generic(ES.PLAIN + ES.COMPOSITE + [["SolverHybrid", {}]], "c26h", 30, 300, n=8, branchy=True)(tier, seed)
+    hj = ES.jobs_generic(ES.PLAIN + ES.COMPOSITE + [["SolverHybrid", {}]], "c26h", 30, 300, n=8, branchy=True)(tier, seed) + \
+        ES.jobs_generic(ES.PLAIN + ES.COMPOSITE, "c26w1", 25, 250, n=4, W=1, alpha="xyz", multi=True)(tier, seed)   # 1-bit values
     hbad, hstats = C.pipeline("w_solver", hj, "TraceSolver.tla")
     hst = C.merge_stats(hstats)
     hfind = C.load_findings(pid) + C.load_findings("C12")
